@@ -12,7 +12,7 @@ from collections import Counter
 import vlib, genprog
 from . import c09, c10
 
-THEOREM_FILES = ['C14', 'C14x', 'C14b']
+THEOREM_FILES = ['C14', 'C14x', 'C14b', 'C14m']
 ASSUMPTIONS = ['not varied, because the language gives them meaning or the property does not list them: directive names (lower case only in the grammar), names at their DEFINITION, .define flags and the argument of defined() (case-sensitive by design), the text of strings and character literals, blanks inside `-X` / `X+` (one token each), blanks before a label (labels start in column 0), #pragma operand lists (blank-separated)',
                'messages carry line numbers, which inserted lines change: images and sizes are compared, message lists are not']
 
